@@ -22,6 +22,12 @@ pub enum Call {
     Timed(u64, u64),
     /// notify_json(tag)
     Notify(u64),
+    /// call_json({"t": tag, "p": "x" * pad}) — a frame larger than the writer's buffer
+    #[allow(dead_code)]
+    Big(u64, usize),
+    /// notify_json of the same large body
+    #[allow(dead_code)]
+    BigNotify(u64, usize),
 }
 
 #[derive(Clone, Debug, PartialEq)]
@@ -44,6 +50,14 @@ pub enum Step {
     Close,
     /// advance the virtual clock by n seconds
     Tick(u64),
+    /// read everything until EOF (helper thread only: EOF comes when the client is dropped)
+    ReadToEnd,
+    /// keep advancing the clock by n seconds until every caller thread has finished
+    #[allow(dead_code)]
+    TickUntilCallersDone(u64),
+    /// do nothing until every caller thread has finished (the peer is not reading)
+    #[allow(dead_code)]
+    WaitCallersDone,
 }
 
 #[derive(Clone, Debug)]
@@ -61,6 +75,8 @@ pub struct Spec {
     pub expect: Expect,
     /// preemption bound override (None = the tier's default)
     pub bound: Option<usize>,
+    /// client-side write timeout in (virtual) seconds
+    pub write_timeout_s: Option<u64>,
 }
 
 #[derive(Clone, Debug, PartialEq)]
@@ -73,6 +89,8 @@ pub enum Expect {
     OwnOrTimeout,
     /// per call: own tag or error (failure racing delivery); never another call's tag
     OwnOrErr,
+    /// results are not constrained (the harness decides on the byte stream only)
+    Any,
 }
 
 #[derive(Clone, Debug, PartialEq)]
@@ -84,6 +102,10 @@ enum CallResult {
     NotifyErr,
 }
 
+fn big_body(tag: u64, pad: usize) -> Value {
+    json!({"t": tag, "p": "x".repeat(pad)})
+}
+
 fn classify(r: Result<Value, RepeError>) -> CallResult {
     match r {
         Ok(v) => CallResult::Tag(v.as_u64().unwrap_or(u64::MAX)),
@@ -93,6 +115,8 @@ fn classify(r: Result<Value, RepeError>) -> CallResult {
 }
 
 struct ServerState {
+    callers_done: std::sync::Arc<loom::sync::atomic::AtomicUsize>,
+    n_callers: usize,
     end: net::TcpStream,
     /// (id, tag, whole request) in arrival order; tag None for unparsable bodies
     seen: Vec<(u64, Option<u64>, Message)>,
@@ -164,6 +188,27 @@ impl ServerState {
                 let _ = self.end.shutdown(net::Shutdown::Both);
             }
             Step::Tick(n) => clock::advance(n * SEC),
+            Step::TickUntilCallersDone(n) => loop {
+                clock::advance(n * SEC);
+                if self.callers_done.load(std::sync::atomic::Ordering::Acquire) >= self.n_callers {
+                    break;
+                }
+                loom::thread::yield_now();
+            },
+            Step::WaitCallersDone => {
+                while self.callers_done.load(std::sync::atomic::Ordering::Acquire) < self.n_callers {
+                    loom::thread::yield_now();
+                }
+            }
+            Step::ReadToEnd => {
+                let mut buf = [0u8; 4096];
+                loop {
+                    match (&self.end).read(&mut buf) {
+                        Ok(0) | Err(_) => break,
+                        Ok(n) => self.raw.extend_from_slice(&buf[..n]),
+                    }
+                }
+            }
         }
     }
     fn read_header(&mut self) -> bool {
@@ -184,7 +229,7 @@ impl ServerState {
         let Some(hd) = self.pending_header.take() else { return };
         let Some(q) = self.read_exact(hd.query_length as usize) else { return };
         let Some(b) = self.read_exact(hd.body_length as usize) else { return };
-        let tag = serde_json::from_slice::<Value>(&b).ok().and_then(|v| v.as_u64());
+        let tag = serde_json::from_slice::<Value>(&b).ok().and_then(|v| v.as_u64().or_else(|| v.get("t").and_then(|t| t.as_u64())));
         let msg = Message::builder().id(hd.id).query_bytes(q).body_bytes(b).body_format(BodyFormat::Json).build();
         if let Some(last) = self.seen.last_mut() {
             *last = (hd.id, tag, msg);
@@ -197,12 +242,18 @@ pub fn body(spec: &Spec) {
     cli_end.verif_limit_outgoing(spec.pipe.0, spec.pipe.1);
     net::register(cli_end);
     let client = Client::connect("mock:1").expect("mock connect");
+    if let Some(secs) = spec.write_timeout_s {
+        client.set_write_timeout(Some(Duration::from_secs(secs))).expect("set_write_timeout");
+    }
 
+    let callers_done = std::sync::Arc::new(loom::sync::atomic::AtomicUsize::new(0));
+    let n_callers = spec.callers.len();
     let mut hs = Vec::new();
     for script in spec.callers.iter().cloned() {
         let c = client.clone();
+        let done = callers_done.clone();
         hs.push(loom::thread::spawn(move || {
-            script
+            let out = script
                 .iter()
                 .map(|call| match call {
                     Call::Plain(tag) => classify(c.call_json("/p", &json!(tag))),
@@ -211,8 +262,16 @@ pub fn body(spec: &Spec) {
                         Ok(()) => CallResult::NotifySent,
                         Err(_) => CallResult::NotifyErr,
                     },
+                    Call::Big(tag, pad) => classify(c.call_json("/p", &big_body(*tag, *pad))),
+                    Call::BigNotify(tag, pad) => match c.notify_json("/p", &big_body(*tag, *pad)) {
+                        Ok(()) => CallResult::NotifySent,
+                        Err(_) => CallResult::NotifyErr,
+                    },
                 })
-                .collect::<Vec<_>>()
+                .collect::<Vec<_>>();
+            drop(c);
+            done.fetch_add(1, std::sync::atomic::Ordering::Release);
+            out
         }));
     }
     let helper = if spec.helper.is_empty() {
@@ -220,19 +279,27 @@ pub fn body(spec: &Spec) {
     } else {
         let steps = spec.helper.clone();
         let end = srv_end.try_clone().unwrap();
+        let cd = callers_done.clone();
         Some(loom::thread::spawn(move || {
-            let mut st = ServerState { end, seen: Vec::new(), pending_header: None, raw: Vec::new() };
+            let mut st = ServerState { callers_done: cd, n_callers, end, seen: Vec::new(), pending_header: None, raw: Vec::new() };
             for s in &steps {
                 st.step(s);
             }
             st
         }))
     };
-    let mut st = ServerState { end: srv_end, seen: Vec::new(), pending_header: None, raw: Vec::new() };
+    let mut st = ServerState { callers_done: callers_done.clone(), n_callers, end: srv_end, seen: Vec::new(), pending_header: None, raw: Vec::new() };
     for s in &spec.server {
         st.step(s);
     }
     let results: Vec<Vec<CallResult>> = hs.into_iter().map(|h| h.join().unwrap()).collect();
+    // nothing left behind once every call has returned (C06)
+    let left = client.verif_pending_len();
+    if left != 0 {
+        violation("C06:pending-residue", format!("[{}] {left} pending entries remain after every call returned; results {results:?}", spec.name));
+    }
+    // the client goes away: both server-side threads see EOF
+    drop(client);
     let helper_state = helper.map(|h| h.join().unwrap());
 
     // ---------------- oracle
@@ -252,7 +319,8 @@ pub fn body(spec: &Spec) {
         for (i, call) in script.iter().enumerate() {
             let r = &results[t][i];
             let (tag, timed) = match call {
-                Call::Plain(tag) => (*tag, false),
+                Call::Plain(tag) | Call::Big(tag, _) => (*tag, false),
+                Call::BigNotify(..) => continue,
                 Call::Timed(tag, _) => (*tag, true),
                 Call::Notify(_) => continue,
             };
@@ -266,6 +334,7 @@ pub fn body(spec: &Spec) {
                 }
             }
             let ok = match (&spec.expect, r) {
+                (Expect::Any, _) => true,
                 (_, CallResult::Tag(_)) => !matches!(spec.expect, Expect::AllErr),
                 (Expect::AllOwn, _) => false,
                 (Expect::AllErr, CallResult::Err(_)) => true,
@@ -282,16 +351,11 @@ pub fn body(spec: &Spec) {
             }
         }
     }
-    // nothing left behind once every call has returned (C06)
-    let left = client.verif_pending_len();
-    if left != 0 {
-        violation("C06:pending-residue", format!("[{}] {left} pending entries remain after every call returned; results {results:?}", spec.name));
-    }
     // whole frames only (C05): everything the server read parsed as frames (checked in
     // read_header) and, where every request is read, the frames carry exactly the tags sent
-    if spec.prop == "C05" {
+    if spec.prop == "C05" && !spec.helper.contains(&Step::ReadToEnd) {
         let mut sent: Vec<u64> = spec.callers.iter().flatten().map(|c| match c {
-            Call::Plain(t) | Call::Timed(t, _) | Call::Notify(t) => *t,
+            Call::Plain(t) | Call::Timed(t, _) | Call::Notify(t) | Call::Big(t, _) | Call::BigNotify(t, _) => *t,
         }).collect();
         let mut got: Vec<u64> = seen.iter().filter_map(|s| s.1).collect();
         sent.sort();
@@ -301,7 +365,11 @@ pub fn body(spec: &Spec) {
                 "[{}] tags sent {sent:?}, tags found in the frames the server parsed {got:?} (raw bytes {:?})", spec.name, st.raw));
         }
     }
-    drop(client);
+    if let Some(h) = &helper_state {
+        if spec.helper.contains(&Step::ReadToEnd) {
+            check_stream(spec, &h.raw);
+        }
+    }
     // after the client is gone the server must see EOF promptly (reader thread exits)
     let mut tail = Vec::new();
     let mut buf = [0u8; 64];
@@ -316,6 +384,42 @@ pub fn body(spec: &Spec) {
     harness::outcome(format!("{results:?}|unread={}", tail.len()));
 }
 
+/// C05: the byte stream must be whole frames, optionally followed by the prefix of one
+/// more frame with nothing foreign inside it ("an interrupted write is never followed by
+/// further frames").
+fn check_stream(spec: &Spec, raw: &[u8]) {
+    let mut expected: Vec<(u64, Vec<u8>)> = Vec::new();
+    for c in spec.callers.iter().flatten() {
+        match c {
+            Call::Plain(t) | Call::Timed(t, _) | Call::Notify(t) => expected.push((*t, serde_json::to_vec(&json!(t)).unwrap())),
+            Call::Big(t, pad) | Call::BigNotify(t, pad) => expected.push((*t, serde_json::to_vec(&big_body(*t, *pad)).unwrap())),
+        }
+    }
+    let mut off = 0;
+    while off < raw.len() {
+        let rest = &raw[off..];
+        if rest.len() < 48 {
+            return; // a partial header at the very end: nothing follows it
+        }
+        let hd = match Header::decode(&rest[..48]) {
+            Ok(h) => h,
+            Err(e) => violation("C05:torn-frame", format!("[{}] at offset {off} of the client's byte stream: {e} (a frame was interrupted and more bytes followed)", spec.name)),
+        };
+        let q = hd.query_length as usize;
+        let b = hd.body_length as usize;
+        let avail_body = rest.len().saturating_sub(48 + q).min(b);
+        let body = &rest[(48 + q).min(rest.len())..(48 + q).min(rest.len()) + avail_body];
+        let ok = expected.iter().any(|(_, e)| e.len() == b && e.starts_with(body));
+        if !ok {
+            violation("C05:foreign-bytes-in-frame", format!("[{}] frame at offset {off} (id {}, body length {b}): the {avail_body} body bytes received are not a prefix of any body a caller sent — another write continued inside an interrupted frame", spec.name, hd.id));
+        }
+        if rest.len() < 48 + q + b {
+            return; // torn at the very end, nothing after it
+        }
+        off += 48 + q + b;
+    }
+}
+
 fn two(a: u64, b: u64) -> Vec<Vec<Call>> {
     vec![vec![Call::Plain(a)], vec![Call::Plain(b)]]
 }
@@ -325,33 +429,35 @@ pub fn catalogue(prop: &str, thorough: bool) -> Vec<Spec> {
     let mut v = Vec::new();
     let q = (0usize, 16usize);
     // ---------------- C04: correlation under every reply order
-    v.push(Spec { name: "c04/in-order".into(), prop: "C04", callers: two(11, 22), server: vec![Read, Read, Reply(0), Reply(1)], helper: vec![], pipe: q, expect: Expect::AllOwn, bound: None });
-    v.push(Spec { name: "c04/reverse".into(), prop: "C04", callers: two(11, 22), server: vec![Read, Read, Reply(1), Reply(0)], helper: vec![], pipe: q, expect: Expect::AllOwn, bound: None });
-    v.push(Spec { name: "c04/unknown+dup".into(), prop: "C04", callers: two(11, 22), server: vec![Read, Read, ReplyUnknown, Reply(1), Reply(1), Reply(0)], helper: vec![], pipe: q, expect: Expect::AllOwn, bound: None });
+    v.push(Spec { name: "c04/in-order".into(), prop: "C04", callers: two(11, 22), server: vec![Read, Read, Reply(0), Reply(1)], helper: vec![], pipe: q, expect: Expect::AllOwn, bound: None, write_timeout_s: None });
+    v.push(Spec { name: "c04/reverse".into(), prop: "C04", callers: two(11, 22), server: vec![Read, Read, Reply(1), Reply(0)], helper: vec![], pipe: q, expect: Expect::AllOwn, bound: None, write_timeout_s: None });
+    v.push(Spec { name: "c04/unknown+dup".into(), prop: "C04", callers: two(11, 22), server: vec![Read, Read, ReplyUnknown, Reply(1), Reply(1), Reply(0)], helper: vec![], pipe: q, expect: Expect::AllOwn, bound: None, write_timeout_s: None });
     // reply as soon as the header is known, while the client's write is still blocked
-    v.push(Spec { name: "c04/early-reply".into(), prop: "C04", callers: two(11, 22), server: vec![ReadHeader, Reply(0), ReadRest, Read, Reply(1)], helper: vec![], pipe: (48, 0), expect: Expect::AllOwn, bound: Some(1) });
-    v.push(Spec { name: "c04/early-reply-single".into(), prop: "C04", callers: vec![vec![Call::Plain(11)]], server: vec![ReadHeader, Reply(0), ReadRest], helper: vec![], pipe: (24, 0), expect: Expect::AllOwn, bound: None });
-    v.push(Spec { name: "c04/one-caller-two-calls".into(), prop: "C04", callers: vec![vec![Call::Plain(1), Call::Plain(2)], vec![Call::Plain(3)]], server: vec![Read, Read, Reply(1), Reply(0), Read, Reply(2)], helper: vec![], pipe: (0, 0), expect: Expect::AllOwn, bound: None });
+    v.push(Spec { name: "c04/early-reply".into(), prop: "C04", callers: two(11, 22), server: vec![ReadHeader, Reply(0), ReadRest, Read, Reply(1)], helper: vec![], pipe: (48, 0), expect: Expect::AllOwn, bound: Some(1), write_timeout_s: None });
+    v.push(Spec { name: "c04/early-reply-single".into(), prop: "C04", callers: vec![vec![Call::Plain(11)]], server: vec![ReadHeader, Reply(0), ReadRest], helper: vec![], pipe: (24, 0), expect: Expect::AllOwn, bound: None, write_timeout_s: None });
+    v.push(Spec { name: "c04/one-caller-two-calls".into(), prop: "C04", callers: vec![vec![Call::Plain(1), Call::Plain(2)], vec![Call::Plain(3)]], server: vec![Read, Read, Reply(1), Reply(0), Read, Reply(2)], helper: vec![], pipe: (0, 0), expect: Expect::AllOwn, bound: None, write_timeout_s: None });
     if thorough {
-        v.push(Spec { name: "c04/three-callers-rotated".into(), prop: "C04", callers: vec![vec![Call::Plain(1)], vec![Call::Plain(2)], vec![Call::Plain(3)]], server: vec![Read, Read, Read, Reply(2), Reply(0), Reply(1)], helper: vec![], pipe: (0, 0), expect: Expect::AllOwn, bound: None });
+        v.push(Spec { name: "c04/three-callers-rotated".into(), prop: "C04", callers: vec![vec![Call::Plain(1)], vec![Call::Plain(2)], vec![Call::Plain(3)]], server: vec![Read, Read, Read, Reply(2), Reply(0), Reply(1)], helper: vec![], pipe: (0, 0), expect: Expect::AllOwn, bound: None, write_timeout_s: None });
     }
     // ---------------- C05: frames from concurrent callers + a notify never interleave
-    v.push(Spec { name: "c05/two-calls+notify/quota7".into(), prop: "C05", callers: vec![vec![Call::Plain(5)], vec![Call::Notify(6), Call::Plain(7)]], server: vec![Read, Read, Read, Reply(0), Reply(1), Reply(2)], helper: vec![], pipe: (0, 7), expect: Expect::AllOwn, bound: None });
-    v.push(Spec { name: "c05/two-calls/capacity1".into(), prop: "C05", callers: two(8, 9), server: vec![Read, Read, Reply(1), Reply(0)], helper: vec![], pipe: (1, 0), expect: Expect::AllOwn, bound: None });
+    v.push(Spec { name: "c05/two-calls+notify/quota24".into(), prop: "C05", callers: vec![vec![Call::Plain(5)], vec![Call::Notify(6), Call::Plain(7)]], server: vec![Read, Read, Read, Reply(0), Reply(1), Reply(2)], helper: vec![], pipe: (0, 24), expect: Expect::AllOwn, bound: None, write_timeout_s: None });
+    v.push(Spec { name: "c05/two-calls/capacity1".into(), prop: "C05", callers: two(8, 9), server: vec![Read, Read, Reply(1), Reply(0)], helper: vec![], pipe: (1, 0), expect: Expect::AllOwn, bound: None, write_timeout_s: None });
+    // (a write timeout interrupting a frame larger than the writer's buffer is decided over real
+    // TCP by the mc part: it needs the peer to resume reading between two writes)
     // ---------------- C06: failures with calls in flight, then a later call
     let later = |a: u64, b: u64| vec![vec![Call::Plain(a), Call::Plain(a + 100)], vec![Call::Plain(b)]];
-    v.push(Spec { name: "c06/close-before-read".into(), prop: "C06", callers: later(1, 2), server: vec![Close], helper: vec![], pipe: (0, 0), expect: Expect::AllErr, bound: None });
-    v.push(Spec { name: "c06/close-after-one-read".into(), prop: "C06", callers: later(1, 2), server: vec![Read, Close], helper: vec![], pipe: (0, 0), expect: Expect::AllErr, bound: None });
-    v.push(Spec { name: "c06/partial-response-then-close".into(), prop: "C06", callers: later(1, 2), server: vec![Read, ReplyPartial(0, 50), Close], helper: vec![], pipe: (0, 0), expect: Expect::AllErr, bound: None });
-    v.push(Spec { name: "c06/malformed-header".into(), prop: "C06", callers: later(1, 2), server: vec![Read, Malformed], helper: vec![], pipe: (0, 0), expect: Expect::AllErr, bound: None });
-    v.push(Spec { name: "c06/answer-one-then-close".into(), prop: "C06", callers: two(1, 2), server: vec![Read, Reply(0), Close], helper: vec![], pipe: (0, 0), expect: Expect::OwnOrErr, bound: None });
+    v.push(Spec { name: "c06/close-before-read".into(), prop: "C06", callers: later(1, 2), server: vec![Close], helper: vec![], pipe: (0, 0), expect: Expect::AllErr, bound: None, write_timeout_s: None });
+    v.push(Spec { name: "c06/close-after-one-read".into(), prop: "C06", callers: later(1, 2), server: vec![Read, Close], helper: vec![], pipe: (0, 0), expect: Expect::AllErr, bound: None, write_timeout_s: None });
+    v.push(Spec { name: "c06/partial-response-then-close".into(), prop: "C06", callers: later(1, 2), server: vec![Read, ReplyPartial(0, 50), Close], helper: vec![], pipe: (0, 0), expect: Expect::AllErr, bound: None, write_timeout_s: None });
+    v.push(Spec { name: "c06/malformed-header".into(), prop: "C06", callers: later(1, 2), server: vec![Read, Malformed], helper: vec![], pipe: (0, 0), expect: Expect::AllErr, bound: None, write_timeout_s: None });
+    v.push(Spec { name: "c06/answer-one-then-close".into(), prop: "C06", callers: two(1, 2), server: vec![Read, Reply(0), Close], helper: vec![], pipe: (0, 0), expect: Expect::OwnOrErr, bound: None, write_timeout_s: None });
     // timeouts: never answered, clock passes the deadline; then the same client keeps working
     v.push(Spec { name: "c06/timeout-then-late-reply-then-next-call".into(), prop: "C06",
         callers: vec![vec![Call::Timed(1, 5), Call::Plain(2)]],
-        server: vec![Read, Tick(5), Reply(0), Read, Reply(1)], helper: vec![], pipe: (0, 0), expect: Expect::OwnOrTimeout, bound: None });
+        server: vec![Read, Tick(5), Reply(0), Read, Reply(1)], helper: vec![], pipe: (0, 0), expect: Expect::OwnOrTimeout, bound: None, write_timeout_s: None });
     // a reply racing the deadline, both orders (helper replies, main ticks)
     v.push(Spec { name: "c06/reply-races-timeout".into(), prop: "C06",
         callers: vec![vec![Call::Timed(1, 5)], vec![Call::Plain(2)]],
-        server: vec![Tick(5)], helper: vec![Read, Read, Reply(0), Reply(1)], pipe: (0, 0), expect: Expect::OwnOrTimeout, bound: None });
+        server: vec![Tick(5)], helper: vec![Read, Read, Reply(0), Reply(1)], pipe: (0, 0), expect: Expect::OwnOrTimeout, bound: None, write_timeout_s: None });
     v.into_iter().filter(|s| s.prop == prop).collect()
 }
